@@ -304,3 +304,15 @@ Example dns_old_rejects :
   /\ map (fun d => dns_decode (dns_encode false d (fun _ _ => 7) hello))
       [dom_trailing_dot; dom_empty_label; dom_long_label] = [Ok hello; Ok hello; Ok hello].
 Proof. split; vm_compute; reflexivity. Qed.
+
+(* ---- the output the reader has written: on success it is the decoded data ------------------- *)
+Lemma dns_out_f_ok : forall fuel b x, dns_decode_f fuel b = Ok x -> dns_out_f fuel b = x.
+Proof.
+  induction fuel as [|fuel IH]; intros b x H; [discriminate|].
+  cbn [dns_decode_f dns_out_f] in *. destruct (is_nil b); [injection H as <-; reflexivity|].
+  destruct (dns_decode_packet b) as [[d n]| |]; cbn [bind] in H; try discriminate.
+  destruct (dns_decode_f fuel (drop n b)) as [r| |] eqn:Er; cbn [bind] in H; try discriminate.
+  injection H as <-. rewrite (IH _ _ Er). reflexivity.
+Qed.
+Lemma dns_out_ok b x : dns_decode b = Ok x -> dns_out b = x.
+Proof. apply dns_out_f_ok. Qed.
